@@ -9,7 +9,7 @@ for d in sorted(glob.glob(os.path.join(V, 'seeded', '*'))):
     if not os.path.exists(mp):
         continue
     m = json.load(open(mp))
-    for key, fn in (('confirmation', 'verify.json'), ('detected_by', 'detect.json')):
+    for key, fn in (('confirmation', 'verify.json'), ('detected_by', 'detect.json'), ('detected_by_seed2', 'detect-s2.json')):
         p = os.path.join(d, fn)
         if os.path.exists(p):
             try:
@@ -24,7 +24,8 @@ for d in sorted(glob.glob(os.path.join(V, 'seeded', '*'))):
     rows.append('| %s | %s | %s | %s | %s |' % (
         os.path.basename(d), m.get('property', ''), (m.get('summary', '') or '')[:170].replace('|', '/'),
         'yes' if ok else ('?' if not c else 'NO %s' % c),
-        ('%s (case #%s of its shard)' % (det.get('subcheck'), det.get('after_cases'))) if det.get('exit') == 1 else ('MISSED' if det else '?')))
+        (('%s (case #%s of its shard)' % (det.get('subcheck'), det.get('after_cases'))) if det.get('exit') == 1 else ('MISSED' if det else '?'))
+        + ((' ; seed 2: ' + (m['detected_by_seed2'].get('subcheck') if m['detected_by_seed2'].get('exit') == 1 else 'MISSED')) if m.get('detected_by_seed2') else '')))
 print('| seeded change | property | what was changed | confirmed (demo fails/passes, suite green) | caught by (quick tier) |')
 print('|---|---|---|---|---|')
 print('\n'.join(rows))
